@@ -100,7 +100,7 @@ def run_case_task(task):
         while shared.worklist:
             prefix = shared.worklist.pop()
             try:
-                res = verify.run_path(prog, reg, c, None, build, prefix, shared, modular=not copts.get('inline', False))
+                res = verify.run_path(prog, reg, c, None, build, prefix, shared, modular=not copts.get('inline', False), opts=copts)
             except Infeasible:
                 continue
             except Unsupported as e:
